@@ -21,33 +21,65 @@ def analyse(ck, mode, optical, radio, staged):
     paths = m.run()
     ck.add_functions(m.interp)
     tag = "compute[%s,opt=%d,rad=%d,staged=%d]" % (mode, optical, radio, staged)
-    if any(p.kind == "unsupported" for p in paths):
+    partial = any(p.kind == "unsupported" for p in paths)
+    if partial:
+        # not every path could be explored (e.g. the writer branches at each checkpoint): the explored ones are still checked -- a
+        # failing obligation on a feasible path is a failure --, but nothing is concluded from the ones that pass
         o = ck.ob("%s/exec" % tag, "exec")
         o.note = "; ".join("%s %s" % (p.kind, p.exc) for p in paths if p.kind == "unsupported")
         ck._undecided(o, None)
-        return
     for pi, p in enumerate(paths):
+        if p.kind == "unsupported":
+            continue
         ptag = "%s[%s]" % (tag, "empty" if any("Eq(n_kept, 0)" == str(c) for c in p.pc) else "events")
         ops = p.state["ops"]
         writes = [o for o in ops if o[0] == "write"]
         muts = [o for o in ops if o[0] in ("cols", "meta")]
 
         def chk(name, ok, clause, note=""):
+            if partial and ok:
+                return
             ck.direct("%s/%s" % (ptag, name), bool(ok), "frame", "ghost-state log of the symbolic execution", clause=clause, note=note,
-                      witness=None if ok else {"mode": mode, "optical": optical, "radio": radio, "write_stages": staged, "note": note})
+                      witness=None if ok else {"mode": mode, "optical": optical, "radio": radio, "write_stages": staged, "note": note},
+                      replay_out=None if ok or name not in ("post.snapshot_after_each_operation",) else native_first17(ck))
 
         files = [e for e in p.effects if e[0] == "file-write"]
         chk("frame.file", not files, "the only file-writing calls reachable from compute() are the table writes of the StagedWriter", str([(e[2], e[3]) for e in files]))
         if not staged:
             chk("post.no_write", not writes, "with intermediate writing disabled nothing is written by the simulation itself", "%d write(s): %s" % (len(writes), [w[1] for w in writes]))
             continue
-        # staged: after every mutation of the table the whole file is rewritten, as FITS, overwriting, with exactly what has been added so far
+        # staged: when control leaves a StagedWriter operation -- i.e. before the next change to the table and at the end -- the output file
+        # holds exactly what has been added so far, written as FITS with overwrite; how it gets there (direct write, scratch file renamed
+        # over it) does not matter; nothing else is left behind
+        from contracts.compute_model import ghost_fs
+
         ok, note = True, ""
         cols, meta = [], []
-        i = 0
-        while i < len(ops):
-            o = ops[i]
+        done = []
+        want_kw = (("format", "fits"), ("overwrite", True))
+
+        def in_sync():
+            fs = ghost_fs(done)
+            f = fs.get("OUT.fits")
+            if f is None:
+                return "the output file does not exist"
+            if f[0] != tuple(sorted(cols)) or not set(meta) <= set(f[1]):
+                return "the output file holds columns %s, the table %s" % (list(f[0]), sorted(cols))
+            if f[2] != want_kw:
+                return "the output file was written with %s" % (dict(f[2]),)
+            extra = [k for k in fs if k != "OUT.fits"]
+            if extra:
+                return "other files are left behind: %s" % extra
+            return None
+
+        mutated = False
+        for o in ops:
             if o[0] in ("cols", "meta"):
+                if mutated:
+                    bad = in_sync()
+                    if bad:
+                        ok, note = False, "before %s %s: %s" % (o[0], o[1], bad)
+                        break
                 if o[0] == "cols":
                     cols += list(o[1])
                     extra = o[3] if len(o) > 3 else {}
@@ -56,25 +88,12 @@ def analyse(ck, mode, optical, radio, staged):
                         break
                 else:
                     meta.append(o[1])
-                nxt = ops[i + 1] if i + 1 < len(ops) else None
-                if nxt is None or nxt[0] != "write":
-                    ok, note = False, "table mutated (%s %s) without rewriting the file" % (o[0], o[1])
-                    break
-                w = nxt
-                if w[1] != "OUT.fits" or w[2] != {"format": "fits", "overwrite": True}:
-                    ok, note = False, "write(%r, %r)" % (w[1], w[2])
-                    break
-                if w[3] != sorted(cols) or [k for k in w[4] if k in meta or True] != sorted(set(w[4])) or not set(meta) <= set(w[4]):
-                    ok, note = False, "file snapshot differs from the table: columns %s vs %s" % (w[3], sorted(cols))
-                    break
-                i += 2
-                continue
-            if o[0] == "write":
-                # a redundant rewrite of the current state keeps the file equal to the table: allowed, but it must be a FITS overwrite too
-                if o[1] != "OUT.fits" or o[2] != {"format": "fits", "overwrite": True}:
-                    ok, note = False, "write(%r, %r)" % (o[1], o[2])
-                    break
-            i += 1
+                mutated = True
+            done.append(o)
+        if ok and mutated:
+            bad = in_sync()
+            if bad:
+                ok, note = False, "at the end: %s" % bad
         chk("post.snapshot_after_each_operation", ok, "after each StagedWriter operation the file is rewritten (format=fits, overwrite=True) and holds exactly the columns and header values added so far", note)
         if pi == 0 or True:
             n_ops = len(muts)
@@ -90,7 +109,9 @@ def opkey(o):
         return ("cols", tuple(o[1]))
     if o[0] == "meta":
         return ("meta", o[1])
-    return ("write", o[1], tuple(sorted(o[2].items())), tuple(o[3]), tuple(o[4]))
+    if o[0] == "write":
+        return ("write", o[1], tuple(sorted(o[2].items())), tuple(o[3]), tuple(o[4]))
+    return tuple(o)  # ghost file-system operations (replace / remove)
 
 
 def analyse_faults(ck, mode):
@@ -115,7 +136,7 @@ def analyse_faults(ck, mode):
             continue
         for p in hit:
             got = [opkey(o) for o in p.state["ops"]]
-            ok = got == ref[: len(got)] and (not got or got[-1][0] == "write")
+            ok = got == ref[: len(got)] and (not got or got[-1][0] in ("write", "replace", "remove"))
             extra = [g for g in got if g not in ref][:2]
             ck.direct("%s/post.prefix_on_failure" % tag, ok, "frame", "ghost-state log of the symbolic execution (stage body raises)",
                       clause="when a stage raises, the file holds exactly the operations completed before that stage, in order (the failure itself adds nothing to the table or the file)",
@@ -176,6 +197,67 @@ def native_fault(ck, stage):
         for f in os.listdir(tmp):
             os.unlink(os.path.join(tmp, f))
         os.rmdir(tmp)
+
+
+def native_tables(ck):
+    """(a) every run starts from a fresh table: nothing a previous run put into its header is visible in the next run's table;
+    (b) a (larger) results file left at the output path by an earlier run is replaced from the first staged write on"""
+    import contextlib
+    import importlib
+    import io
+
+    import dask
+    from astropy.table import Table
+    from nuspacesim import results_table
+    from nuspacesim.config import NssConfig
+
+    fails, n = [], 0
+    cfg = NssConfig()
+    t1 = results_table.init(cfg)
+    t1.meta["OMCINT"] = (1.0, "left over")
+    t1["beta_rad"] = np.arange(3.0)
+    t2 = results_table.init(cfg)
+    n += 1
+    if t2.meta is t1.meta or "OMCINT" in t2.meta or len(t2.colnames) != 0:
+        fails.append({"obligation": "bounded.fresh_table", "clause": "a new run's table carries nothing of an earlier run in the same process (header values, columns)", "input": {"sequence": "init, fill, init"},
+                      "observed": {"same header object": t2.meta is t1.meta, "left-over keys": [k for k in ("OMCINT",) if k in t2.meta], "columns": list(t2.colnames)}})
+    if ck.tier == "thorough" or getattr(ck, "_want_native_preexisting", False):
+        C = importlib.import_module("nuspacesim.compute")
+        tmp = tempfile.mkdtemp(prefix="c17p_", dir=os.environ.get("XDG_RUNTIME_DIR") or None)
+        out = os.path.join(tmp, "r.fits")
+        try:
+            with contextlib.redirect_stdout(io.StringIO()), dask.config.set(scheduler="synchronous"), np.errstate(all="ignore"):
+                big = NssConfig()
+                big.simulation.thrown_events = 1500
+                np.random.seed(ck.seed)
+                C.compute(big, output_file=out, write_stages=True)
+                small = NssConfig()
+                small.simulation.thrown_events = 60
+                np.random.seed(ck.seed + 1)
+                final = C.compute(small, output_file=out, write_stages=True)
+            got = Table.read(out, format="fits")
+            n += 1
+            if len(got) != len(final) or got.colnames != final.colnames:
+                fails.append({"obligation": "bounded.preexisting_file", "clause": "a results file already at the output path is replaced by this run's table", "input": {"earlier run": "1500 thrown events", "this run": "60 thrown events", "same output path": True},
+                              "observed": {"rows in the file": len(got), "rows of this run": len(final)}})
+        finally:
+            for f in os.listdir(tmp):
+                os.unlink(os.path.join(tmp, f))
+            os.rmdir(tmp)
+    return {"evaluations": n, "failures": fails}
+
+
+def native_first17(ck):
+    if getattr(ck, "_nf17", None) is not None:
+        return ck._nf17
+    ck._want_native_preexisting = True
+    out = native_tables(ck)
+    ck._nf17 = {"violated": True, "input": out["failures"][0]["input"], "observed": out["failures"][0]["observed"], "clause": out["failures"][0]["clause"]} if out["failures"] else {"violated": False, "evaluations": out["evaluations"]}
+    return ck._nf17
+    if out["failures"]:
+        f = out["failures"][0]
+        return {"violated": True, "input": f["input"], "observed": f["observed"], "clause": f["clause"]}
+    return {"violated": False, "evaluations": out["evaluations"]}
 
 
 def bounded_real(ck):
@@ -284,5 +366,7 @@ def run(ck):
             analyse(ck, mode, o, r, staged)
     for mode in ("Diffuse", "Target"):
         analyse_faults(ck, mode)
+    ck.bounded_run("fresh table per run; results file left by an earlier run (thorough)", lambda: native_tables(ck),
+                   design="results_table.init twice in one process with the first table filled in between; thorough: compute() with 60 events onto the file of a 1500-event run, staged writing on")
     if ck.tier == "thorough":
         ck.bounded_run("real compute with a fault after each staged write", lambda: bounded_real(ck), design="default diffuse configuration, 400 thrown events, fault after write k = 1..15; file re-read with astropy")
